@@ -436,8 +436,8 @@ def _fix_index(spec, table, e, fix_field):
     fix_field(ixs, e, (ixt or {"phys": "int64"})["phys"])
 
 
-ROW_OPS = ["nullable", "unique", "check", "check", "check", "joint", "index-row", "framecheck"]
-ALL_OPS = ["nullable", "unique", "dtype", "check", "check", "strict", "ordered", "required", "joint", "index"]
+ROW_OPS = ["nullable", "unique", "check", "check", "check", "joint", "index-row", "framecheck", "framecheck2"]
+ALL_OPS = ["nullable", "unique", "dtype", "check", "check", "strict", "ordered", "required", "joint", "index", "framecheck2"]
 
 
 @st.composite
@@ -486,6 +486,19 @@ def tighten(draw, case, ops=None):
         cs = draw(derived_check(phys, allc, allow_ignore_na_false=False))
         if cs["kind"] != "unique_values_eq":
             spec["checks"] = [cs]
+    elif op == "framecheck2" and spec.get("kind", "dataframe") == "dataframe":
+        # two (or three) user-written row-wise dataframe checks made by one factory: same code, other column / bound
+        names = [t["name"] for t in table["columns"]]
+        cands = [t for t in table["columns"] if t["phys"] in ("int64", "float64") and t["cells"]
+                 and not any(c is None for c in t["cells"]) and names.count(t["name"]) == 1]
+        if cands:
+            picks = [draw(st.sampled_from(cands)) for _ in range(draw(st.integers(2, 3)))]
+            checks = []
+            for t in picks:
+                lo, hi = min(t["cells"]), max(t["cells"])
+                m = draw(st.sampled_from([lo, lo, hi, hi + 1, lo - 1]))
+                checks.append({"kind": "col_ge", "args": {"column": t["name"], "min_value": m}})
+            spec["checks"] = checks
     elif op == "index-row" and spec.get("index") and "multi" not in spec["index"]:
         ixs, ixt = spec["index"], table.get("index")
         if ixt is not None and "multi" not in ixt and ixs.get("dtype") not in (None, "object"):
